@@ -75,7 +75,7 @@ def required_cells(tier):
     return (['agree:passed', 'agree:failed', 'agree:skipped', 'agree:disabled', 'style:auto', 'style:google',
              'style:freeform', 'exit:0', 'exit:1', 'leftover-pair:fail_reads_leftover', 'leftover-pair:pass_no_leftover',
              'file-name:__main__.py', 'file-name:setup.py', 'conftest-fills-xdoctest_namespace', 'textfile:agree', 'textfile:__name__-in-a-later-example', 'textfile:after-a-failed-example:reads_previous',
-             'module-level-importorskip'] +
+             'module-level-importorskip', 'order-dependent-doctests-out-of-line-order'] +
             ['options:' + (o or 'none') for o in set(OPTIONS)])
 
 
@@ -156,6 +156,26 @@ def check_module(ctx, idx, seed):
         else:
             path = os.path.join(work, 'setup.py')
         ctx.cell('file-name:' + os.path.basename(path))
+    if idx % 16 == 11:
+        # doctests whose outcome depends on the order they run in (a module-level registry), in a module whose collection
+        # order is not the order of the lines: a callable defined twice keeps the place of its first definition and the
+        # docstring of its last.  Both front ends run the doctests in collection order
+        uid = '%dx%d' % (ctx.seed, idx)
+
+        def _doc(lines):
+            if layout == 'google':
+                return ['    """', '    Summary.', '', '    Example:'] + ['        ' + ln for ln in lines] + ['    """']
+            return ['    """', '    Summary.', ''] + ['    ' + ln for ln in lines] + ['    """']
+        om.src += '\n'.join(
+            ['', 'REG_ZZ = []', '', 'def redefined_zz():', '    """The fallback definition."""', '    return 0', '',
+             'def between_zz():'] + _doc(['>>> mark("ordB%s")' % uid, '>>> REG_ZZ.append(1)', '>>> print(len(REG_ZZ))', '1']) +
+            ['    return 1', '', 'def redefined_zz():'] +
+            _doc(['>>> mark("ordA%s")' % uid, '>>> print(len(REG_ZZ))', '0']) + ['    return 2', '']) + '\n'
+        om.tests.append({'ident': 'redefined_zz:0', 'callname': 'redefined_zz', 'kind': 'pass', 'outcome': 'passed',
+                         'id': 'ordA%s' % uid, 'marks': True})
+        om.tests.append({'ident': 'between_zz:0', 'callname': 'between_zz', 'kind': 'pass', 'outcome': 'passed',
+                         'id': 'ordB%s' % uid, 'marks': True})
+        ctx.cell('order-dependent-doctests-out-of-line-order')
     module_asks_to_be_skipped = idx % 16 == 13
     if module_asks_to_be_skipped:
         # the module needs an optional dependency and says so the pytest way: importing it raises pytest's Skipped
